@@ -179,6 +179,9 @@ func ParseMessageWithDataDictionary(
 	return doParsing(mp)
 }
 
+// errTruncated is returned when the field delimiters run out before the CheckSum field is found.
+var errTruncated = parseError{OrigError: "message ends before the CheckSum field"}
+
 // doParsing executes the message parsing process.
 func doParsing(mp *msgParser) (err error) {
 	mp.msg.Header.rwLock.Lock()
@@ -213,6 +216,9 @@ func doParsing(mp *msgParser) (err error) {
 
 	// Get body length.
 	mp.fieldIndex++
+	if mp.fieldIndex >= len(mp.msg.fields) {
+		return errTruncated
+	}
 	mp.parsedFieldBytes = &mp.msg.fields[mp.fieldIndex]
 	if mp.rawBytes, err = extractSpecificField(mp.parsedFieldBytes, tagBodyLength, mp.rawBytes); err != nil {
 		return
@@ -221,6 +227,9 @@ func doParsing(mp *msgParser) (err error) {
 
 	// Get msg type.
 	mp.fieldIndex++
+	if mp.fieldIndex >= len(mp.msg.fields) {
+		return errTruncated
+	}
 	mp.parsedFieldBytes = &mp.msg.fields[mp.fieldIndex]
 	if mp.rawBytes, err = extractSpecificField(mp.parsedFieldBytes, tagMsgType, mp.rawBytes); err != nil {
 		return
@@ -235,6 +244,9 @@ func doParsing(mp *msgParser) (err error) {
 	mp.foundBody = false
 	mp.foundTrailer = false
 	for {
+		if mp.fieldIndex >= len(mp.msg.fields) {
+			return errTruncated
+		}
 		mp.parsedFieldBytes = &mp.msg.fields[mp.fieldIndex]
 		if xmlDataLen > 0 {
 			mp.rawBytes, err = extractXMLDataField(mp.parsedFieldBytes, mp.rawBytes, xmlDataLen)
@@ -312,6 +324,11 @@ func parseGroup(mp *msgParser, tags []Tag) {
 
 	for {
 		mp.fieldIndex++
+		if mp.fieldIndex >= len(mp.msg.fields) {
+			// Out of fields: keep what was read, the caller's loop reports the truncation.
+			mp.msg.Body.add(dm)
+			return
+		}
 		mp.parsedFieldBytes = &mp.msg.fields[mp.fieldIndex]
 		mp.rawBytes, _ = extractField(mp.parsedFieldBytes, mp.rawBytes)
 		mp.trailerBytes = mp.rawBytes
